@@ -133,23 +133,24 @@ static bool judge(report& r, R const& res, expect<T> const& e, bool exact, bool 
     if (res.non_zero_calls() != e.nz) return bad("non_zero_calls", "non_zero_calls() = " + std::to_string(res.non_zero_calls()) + ", log says " + std::to_string(e.nz));
     if (res.finite_calls() != e.fin) return bad("finite_calls", "finite_calls() = " + std::to_string(res.finite_calls()) + ", log says " + std::to_string(e.fin));
     L const tol_s = exact ? 0 : 16 * eps * std::sqrt(e.sumsq * std::max<sz>(e.fin, 1));
-    L const tol_q = exact ? 0 : 16 * eps * e.sumsq;
+    L const tol_q = (exact ? 0 : 16 * eps * e.sumsq) + L(e.fin + 1) * L(std::numeric_limits<T>::denorm_min());   // squares may underflow
     if (!(std::fabs(L(res.sum()) - e.sum) <= tol_s)) return bad("sum", "sum() = " + vf::dec(L(res.sum())) + ", sum of f*w over the log = " + vf::dec(e.sum));
     if (!(std::fabs(L(res.sum_of_squares()) - e.sumsq) <= tol_q)) return bad("sum_of_squares", "sum_of_squares() = " + vf::dec(L(res.sum_of_squares())) + ", log gives " + vf::dec(e.sumsq));
     if (e.calls >= 1)
     {
         L const want = L(res.sum()) / e.calls;
-        if (!(std::fabs(L(res.value()) - want) <= 4 * eps * std::fabs(want))) return bad("value", "value() = " + vf::dec(L(res.value())) + ", sum/N = " + vf::dec(want));
+        // (one step of the subnormal grid on top: a quotient in the subnormal range is rounded to that grid)
+        if (!(std::fabs(L(res.value()) - want) <= 4 * eps * std::fabs(want) + L(std::numeric_limits<T>::denorm_min()))) return bad("value", "value() = " + vf::dec(L(res.value())) + ", sum/N = " + vf::dec(want));
     }
     if (e.calls >= 2)
     {
         L const n = e.calls, ev = L(res.sum()) / n;
         L const want = (L(res.sum_of_squares()) / n - ev * ev) / (n - 1);
-        L const tol = 16 * eps * (L(res.sum_of_squares()) / n + ev * ev) / (n - 1);
+        L const tol = 16 * eps * (L(res.sum_of_squares()) / n + ev * ev) / (n - 1) + 4 * L(std::numeric_limits<T>::denorm_min());
         if (!(std::fabs(L(res.variance()) - want) <= tol)) return bad("variance", "variance() = " + vf::dec(L(res.variance())) + ", (sumsq/N - E^2)/(N-1) = " + vf::dec(want));
         // error() is documented as the square root of variance(): compare with the accessor's own value, in T's precision
         L const var = res.variance();
-        if (var > 0 && !(std::fabs(L(res.error()) - std::sqrt(var)) <= 4 * eps * std::sqrt(var)))
+        if (var > 0 && !(std::fabs(L(res.error()) - std::sqrt(var)) <= 4 * eps * std::sqrt(var) + L(std::numeric_limits<T>::denorm_min())))
             return bad("error", "error() = " + vf::dec(L(res.error())) + ", sqrt(variance()) = " + vf::dec(std::sqrt(var)));
     }
     if (with_dist)
@@ -184,7 +185,7 @@ static bool judge_vegas_adj(report& r, hep::vegas_result<T> const& res, std::vec
     if (res.adjustment_data().size() != dims * bins) { r.violate("vegas-adjustment-size", id, what); return false; }
     for (sz i = 0; i != want.size(); ++i)
     {
-        L const tol = exact ? 0 : 16 * std::numeric_limits<T>::epsilon() * mag[i];
+        L const tol = (exact ? 0 : 16 * std::numeric_limits<T>::epsilon() * mag[i]) + L(n + 1) * L(std::numeric_limits<T>::denorm_min());   // squares may underflow
         if (!(std::fabs(L(res.adjustment_data()[i]) - want[i]) <= tol))
         {
             r.violate("vegas-adjustment-data", id, what + ": adjustment datum [dim " + std::to_string(i / bins) + ", bin " + std::to_string(i % bins) + "] = "
@@ -214,7 +215,7 @@ static bool judge_mc_adj(report& r, hep::multi_channel_result<T> const& res, std
         // a disabled channel has no density the library could rely on (the map is told which channels are enabled so
         // that it can leave the others alone): its datum is not part of the documented sums
         if (res.channel_weights().size() == channels && res.channel_weights()[j] == T()) continue;
-        if (!(std::fabs(L(res.adjustment_data()[j]) - want[j]) <= 32 * std::numeric_limits<T>::epsilon() * std::fabs(want[j])))
+        if (!(std::fabs(L(res.adjustment_data()[j]) - want[j]) <= 32 * std::numeric_limits<T>::epsilon() * std::fabs(want[j]) + L(n + 1) * L(std::numeric_limits<T>::denorm_min())))
         {
             r.violate("mc-adjustment-data", id, what + ": adjustment datum of channel " + std::to_string(j) + " = " + vf::dec(L(res.adjustment_data()[j]))
                 + ", sum of p_j (f*w)^2 w over the log = " + vf::dec(want[j]));
@@ -348,7 +349,8 @@ template <typename T>
 static void multi_iteration(report& r)
 {
     std::string const tn = vf::type_name<T>();
-    std::vector<T> const alpha = {T(0), T(1), T(-1.5), T(0.25), T(3), std::numeric_limits<T>::quiet_NaN()};
+    // (a subnormal value is a finite, non-zero value like any other)
+    std::vector<T> const alpha = {T(0), T(1), T(-1.5), T(0.25), T(3), std::numeric_limits<T>::quiet_NaN(), std::numeric_limits<T>::denorm_min() * T(8), -std::numeric_limits<T>::min() / T(4)};
     std::vector<std::vector<sz>> const calls_lists = {{3, 0, 5}, {1, 2, 7}, {4, 4, 4}, {2, 9, 1}};
     for (int kind = 0; kind != 3; ++kind)
     for (bool dist : {false, true})
